@@ -2,9 +2,9 @@
 tables of TEBD / ExpMPO / TDVP). Does not decide convergence order or conservation."""
 import ast
 
-from ..core import (AnalysisError, body_nodes, closure, depends_on, dotted, in_loop, is_self_attr,
+from ..core import (AnalysisError, body_nodes, call_name, closure, depends_on, dotted, in_loop, is_self_attr,
                     key_text, local_defs, names_in, params, parent, stmts_of, unparse)
-from ..dtable import UNKNOWN, run_paths, to_ast
+from ..dtable import UNKNOWN, run_paths, subst, to_ast
 from ..normal import _dc, inline_temps
 from ..pattern import find, guards_of, pmatch
 from ..flow import check_errflow
@@ -437,34 +437,63 @@ def check_trotter(prog, rep):
     return obligations, discharged
 
 
+def _exponent_poly(e):
+    """polynomial of the expm argument with the combined two-site Hamiltonian as symbol H2"""
+    class R(ast.NodeTransformer):
+        def visit_Call(self, node):
+            if isinstance(node.func, ast.Attribute) and node.func.attr == 'combine_legs':
+                return ast.Name('H2', ast.Load())
+            return self.generic_visit(node)
+
+    return eval_poly(ast.fix_missing_locations(R().visit(_dc(e))), {})
+
+
 def check_tebd_tables(prog, rep):
     m = prog.module(TEBD)
     # calc_U: tau table; _calc_U_bond: prefactor table; consistency prefactor = -1j*tau/delta_t*dt
     f = m.func('TEBDEngine.calc_U')
     g = m.func('TEBDEngine._calc_U_bond')
     tau = {}
-    for st in ast.walk(f):
-        if isinstance(st, ast.If) and isinstance(st.test, ast.Compare) and \
-                unparse(st.test.left) == 'type_evo' and isinstance(st.test.comparators[0],
-                                                                    ast.Constant):
-            for b in st.body:
-                if isinstance(b, ast.Assign) and "['tau']" in unparse(b.targets[0]):
-                    tau[st.test.comparators[0].value] = eval_poly(b.value, {})
     pref = {}
-    for st in ast.walk(g):
-        if isinstance(st, ast.If) and isinstance(st.test, ast.Compare) and \
-                unparse(st.test.left) == 'type_evo' and isinstance(st.test.comparators[0],
-                                                                    ast.Constant):
-            last = None
-            for b in st.body:
-                for a in ast.walk(b):
-                    if isinstance(a, ast.Assign) and unparse(a.targets[0]) == 'H2':
-                        last = a
-            if last is not None:
-                try:
-                    pref[st.test.comparators[0].value] = eval_poly(last.value, {})
-                except NotPoly:
-                    pass
+    for te in ('real', 'imag'):
+        # calc_U: value stored under the key 'tau' on the path selected by type_evo
+        for p in run_paths(_body(f), {}, {'type_evo': te}):
+            for st in p.trace:
+                v = None
+                if isinstance(st, ast.Assign):
+                    for t in st.targets:
+                        if isinstance(t, ast.Subscript) and isinstance(t.slice, ast.Constant) and \
+                                t.slice.value == 'tau':
+                            v = st.value
+                    if isinstance(st.value, ast.Dict):
+                        for k, val in zip(st.value.keys, st.value.values):
+                            if isinstance(k, ast.Constant) and k.value == 'tau':
+                                v = val
+                    if isinstance(st.value, ast.Call) and call_name(st.value) == 'dict':
+                        for k in st.value.keywords:
+                            if k.arg == 'tau':
+                                v = k.value
+                if v is not None:
+                    try:
+                        tau[te] = eval_poly(subst(v, {k: x for k, x in p.env.items()
+                                                      if k not in params(f)}), {})
+                    except NotPoly:
+                        pass
+        # _calc_U_bond: the exponent handed to expm on the path selected by type_evo
+        for p in run_paths(_body(g), {'h is None': False, 'E_offset is not None': False},
+                           {'type_evo': te}):
+            if p.outcome != 'return':
+                continue
+            for st in p.trace:
+                if isinstance(st, ast.Assign) and isinstance(st.value, ast.Call) and \
+                        dotted(st.value.func) == 'npc.expm' and st.value.args:
+                    arg = st.value.args[0]
+                    e = p.env.get(arg.id) if isinstance(arg, ast.Name) else arg
+                    if isinstance(e, ast.AST):
+                        try:
+                            pref[te] = _exponent_poly(e)
+                        except NotPoly:
+                            pass
     if set(tau) != {'real', 'imag'} or set(pref) != {'real', 'imag'}:
         raise AnalysisError('TEBD tau/prefactor tables not found (tau=%s pref=%s)' %
                             (sorted(tau), sorted(pref)))
@@ -510,7 +539,7 @@ def check_tebd_tables(prog, rep):
                       'self._U must be built by appending, for each entry t of '
                       'suzuki_trotter_time_steps(order) in order, gates for time t*delta_t', f.lineno)
     # evolve_step: bonds of one parity
-    es = m.func('TEBDEngine.evolve_step')
+    es = inline_temps(m.func('TEBDEngine.evolve_step'))
     rep.instance('TEBD-bond-parity', {})
     ok = False
     for st in ast.walk(es):
@@ -599,7 +628,7 @@ def check_tdvp(prog, rep):
     half_bwd = Poly({('self.dt', ): C(0, Fraction_half(1))})
     for cname, nsite, back in (('TwoSiteTDVPEngine', 2, 'one_site_update'),
                                ('SingleSiteTDVPEngine', 1, 'zero_site_update')):
-        ul = m.func(cname + '.update_local')
+        ul = inline_temps(m.func(cname + '.update_local'), keep=('dt', ))
         # forward step
         fw = [s for s in stmts_of(ul) if isinstance(s, ast.Assign) and
               unparse(s.targets[0]) == 'dt']
@@ -631,7 +660,8 @@ def check_tdvp(prog, rep):
         for fn in cls.body:
             if not isinstance(fn, ast.FunctionDef):
                 continue
-            for c in body_nodes(fn):
+            nfn = inline_temps(fn)
+            for c in body_nodes(nfn):
                 if isinstance(c, ast.Call) and dotted(c.func) == 'self.' + back:
                     nb += 1
                     arg = c.args[-1]
@@ -645,8 +675,35 @@ def check_tdvp(prog, rep):
                                       'backward-half-step',
                                       'backward evolution `%s` must use +0.5j*self.dt (the exact '
                                       'negative of the forward half step)' % unparse(c), c.lineno)
-        if nb < 2:
+        if nb < 1:
             raise AnalysisError('%s: backward evolution calls not found' % cname)
+        if nsite == 2:
+            # decision table over the sweep direction: right-moving -> backward step on the site
+            # just entered (i0+1), left-moving -> on i0, last update of the sweep (None) -> none
+            want = {True: ['self.i0 + 1'], False: ['self.i0'], None: []}
+            for mv, sites in want.items():
+                got = []
+                for p in run_paths(_body(ul), {'self.move_right': mv, 'self.combine': True,
+                                               'self.i0 is not None': True,
+                                               'self.i0 is None': False}):
+                    g2 = []
+                    for st in p.trace:
+                        if isinstance(st, ast.Expr) and isinstance(st.value, ast.Call) and \
+                                dotted(st.value.func) == 'self.' + back:
+                            a0 = subst(st.value.args[0], p.env)
+                            try:
+                                g2.append(repr(eval_poly(a0, {})))
+                            except NotPoly:
+                                g2.append(unparse(a0))
+                    got.append(g2)
+                exp = [repr(eval_poly(ast.parse(x, mode='eval').body, {})) for x in sites]
+                rep.instance('TDVP-half-steps', {'class': cname, 'move_right': mv,
+                                                 'backward_sites': got})
+                if not got or any(g2 != exp for g2 in got):
+                    rep.violation('TDVP-half-steps', m, cname + '.update_local',
+                                  'backward-site:%s' % mv,
+                                  'with move_right=%s the backward one-site step must act on %s; '
+                                  'found %s' % (mv, sites or 'no site', got), ul.lineno)
         # the backward helper passes its dt to _krylov_evolve unchanged
         bf = m.func('%s.%s' % (cname, back))
         kc = [c for c in body_nodes(bf) if isinstance(c, ast.Call) and
@@ -655,7 +712,7 @@ def check_tdvp(prog, rep):
             rep.violation('TDVP-half-steps', m, '%s.%s' % (cname, back), 'backward-dt-passed',
                           '%s must evolve by exactly its `dt` argument' % back, bf.lineno)
         # turning point: the site visited once by the schedule is the one with the doubled step
-        gs = m.func(cname + '.get_sweep_schedule')
+        gs = inline_temps(m.func(cname + '.get_sweep_schedule'), keep=('i0s', ))
         rep.instance('TDVP-turning-point', {'class': cname})
         turn = None
         for s in stmts_of(gs):
@@ -684,7 +741,7 @@ def check_tdvp(prog, rep):
                     isinstance(double_guard.ops[0], ast.Eq):
                 try:
                     rhs = eval_poly(double_guard.comparators[0], {})
-                    if unparse(double_guard.left) == 'i0' and rhs == turn:
+                    if unparse(double_guard.left) in ('i0', 'self.i0') and rhs == turn:
                         okg = True
                 except NotPoly:
                     pass
